@@ -94,6 +94,17 @@ Definition direct (G : env) (b : bool) : env :=
   {| e_vars := e_vars G; e_funcs := e_funcs G; e_cls := e_cls G; e_lambda_depth := e_lambda_depth G;
      e_in_lambda := e_in_lambda G; e_cur := e_cur G; e_direct := b |}.
 
+(* an unbounded type variable has the top type as its bound (T <: Any / Object in every target language; the IR's own
+   relation, and SubA with it, has no such rule): applied to both sides of every assignability question *)
+Fixpoint topify (top : ty) (t : ty) : ty :=
+  match t with
+  | TVar x v None => TVar x v (Some top)
+  | TVar x v (Some b) => TVar x v (Some (topify top b))
+  | TApp c l => TApp c (map (topify top) l)
+  | TWild v (Some b) => TWild v (Some (topify top b))
+  | x => x
+  end.
+
 Section Checker.
   Context (infer : bool)       (* true: a local variable without declared type gets the type synthesised for its
                                   initializer (what a compiler infers) instead of the recorded one *)
@@ -130,7 +141,9 @@ Section Checker.
     | TUnk, _ | _, None => negb strict
     | TOk a0, Some b =>
         (* boxing: a value of a primitive built-in type may be used where its class is expected *)
-        let a := match a0 with TBuiltin x true => TBuiltin x false | x => x end in
+        let top := TBuiltin (l_any L) false in
+        let a := topify top (match a0 with TBuiltin x true => TBuiltin x false | x => x end) in
+        let b := topify top b in
         match sub_ref w 40 [] a b with
         | Yes => true
         | Unk => negb strict
@@ -619,6 +632,7 @@ Section Checker.
                        let vt := match vt0, ti with
                                  | Some t, _ => Some t
                                  | None, TOk t => if infer then Some t else nth_ty s 1
+                                 | None, TBot => if infer then Some TNothing else nth_ty s 1   (* val y = TODO(): a compiler infers Nothing *)
                                  | None, _ => nth_ty s 1
                                  end in
                        let dup := if existsb (Nat.eqb (name_of_node s)) seen then [mkerr (path ++ [i]) 21] else [] in
@@ -738,6 +752,33 @@ Definition tv_scope_all (p : node) : list err :=
        match l with [] => [] | c :: l' => tv_scope [] [i] c ++ go (S i) l' end) 0 kids
   end.
 
+(* a use-site projection on a type parameter that the bound of ANOTHER parameter mentions, while that other parameter
+   has a concrete argument: class Foo<X, Y : Box<X>>, Foo<out Number, Box<Int>> -- the argument of Y would have to be
+   within Box<captured X>, which no nameable type is (javac: "not within bounds", kotlinc: upper bound violated) *)
+Definition dep_proj_ok (cs : list cls) (t : ty) : bool :=
+  match t with
+  | TApp c args =>
+      match find (fun cl => Nat.eqb (cl_cid cl) c) cs with
+      | Some cl =>
+          let ps := cl_tparams cl in
+          if negb (Nat.eqb (length ps) (length args)) then true
+          else forallb (fun ia => match snd ia with
+                                  | TWild _ (Some _) =>
+                                      forallb (fun jb => match tvar_bound (fst jb) with
+                                                         | Some b => negb (occurs (fst ia) b) || is_wild (snd jb)
+                                                         | None => true
+                                                         end) (combine ps args)
+                                  | _ => true
+                                  end) (combine ps args)
+      | None => true
+      end
+  | _ => true
+  end.
+
+Definition wf_types (cs : list cls) (p : node) : list err :=
+  map (fun t => (([] : list nat), 27, Some t, (None : option ty)))
+      (filter (fun t => negb (dep_proj_ok cs t)) (type_occurrences p)).
+
 Definition check_program (infer strict : bool) (L : lang) (cn : list (nat * nat)) (bclasses : ctable) (bt : btable) (arr : option nat)
            (kw : list nat) (p : node) : list err :=
   let cs := classes_of cn p in
@@ -756,7 +797,8 @@ Definition check_program (infer strict : bool) (L : lang) (cn : list (nat * nat)
                      | None => match kids_of v with
                                | [x] => match fst (chk infer false L w cs topfuncs topvars0 kw fuel (fresh_env None []) [] None x) with
                                         | TOk t => Some t
-                                        | _ => nth_ty v 1
+                                        | TBot => Some TNothing
+                                        | TUnk => nth_ty v 1
                                         end
                                | _ => nth_ty v 1
                                end
@@ -772,7 +814,7 @@ Definition check_program (infer strict : bool) (L : lang) (cn : list (nat * nat)
                                          (direct (fresh_env None []) (infer && (match nth_ty d 0 with None => true | Some _ => false end))) [i; 0]
                                          (match nth_ty d 0 with Some t => Some t | None => if infer then None else nth_ty d 1 end) x
                             | _ => (TUnk, []) end in
-           ei ++ (chk_assign strict w ti (match nth_ty d 0 with Some t => Some t | None => if infer then None else nth_ty d 1 end) ([i]) 1)
+           ei ++ (chk_assign strict L w ti (match nth_ty d 0 with Some t => Some t | None => if infer then None else nth_ty d 1 end) ([i]) 1)
               ++ (if existsb (Nat.eqb (name_of_node d)) kw then [mkerr ([i]) 22] else [])
        | 4 => chk_func infer strict L w cs topfuncs topvars kw fuel (fresh_env None []) [i] d false
               ++ (if existsb (Nat.eqb (name_of_node d)) kw then [mkerr ([i]) 22] else [])
@@ -797,7 +839,7 @@ Definition check_program (infer strict : bool) (L : lang) (cn : list (nat * nat)
                                         flat_map (fun ka =>
                                                     let '(k, (a, ft)) := ka in
                                                     let '(ta, ea) := chk infer strict L w cs topfuncs topvars kw fuel G [i; j; k] ft a in
-                                                    ea ++ (chk_assign strict w ta (ft) ([i; j; k]) 4))
+                                                    ea ++ (chk_assign strict L w ta (ft) ([i; j; k]) 4))
                                                  (combine (seq 0 (length (kids_of s))) (combine (kids_of s) fts))
                                       else [])
                                  | None => if c <? 90 then [mkerr ([i; j]) 12] else []
@@ -819,7 +861,8 @@ Definition check_program (infer strict : bool) (L : lang) (cn : list (nat * nat)
                                      end) (cl_supers cl) with
                             | None => [mkerr [i; j] 17]
                             | Some (sfn, m) =>
-                                if negb (Nat.eqb (length (fn_tparams sfn)) 0) || negb (Nat.eqb (length (fn_tparams fn)) 0) then []
+                                if negb (Nat.eqb (length (fn_tparams sfn)) (length (fn_tparams fn))) then [mkerr [i; j] 17]
+                                else if negb (Nat.eqb (length (fn_tparams sfn)) 0) then []
                                 else if negb (Nat.eqb (length (fn_params fn)) (length (fn_params sfn))) then [mkerr [i; j] 17]
                                 else
                                   (if forallb (fun pq => match fp_ty (fst pq), fp_ty (snd pq) with
@@ -828,7 +871,7 @@ Definition check_program (infer strict : bool) (L : lang) (cn : list (nat * nat)
                                                          end) (combine (fn_params fn) (fn_params sfn))
                                    then [] else [mkerr [i; j] 17]) ++
                                   (match fn_ret fn with
-                                   | Some r => chk_assign strict w (read_ty (Some r)) (option_map (subst false m) (fn_ret sfn)) [i; j] 17
+                                   | Some r => chk_assign strict L w (read_ty (Some r)) (option_map (subst false m) (fn_ret sfn)) [i; j] 17
                                    | None => []
                                    end)
                             end
@@ -844,13 +887,13 @@ Definition check_program (infer strict : bool) (L : lang) (cn : list (nat * nat)
            (if existsb (Nat.eqb (name_of_node d)) kw then [mkerr ([i]) 22] else [])
        | _ => []
        end)
-    (combine (seq 0 (length (kids_of p))) (kids_of p)) ++ tv_scope_all p.
+    (combine (seq 0 (length (kids_of p))) (kids_of p)) ++ tv_scope_all p ++ wf_types cs p.
 
 (* the errors that belong to one property *)
 Definition only_codes (codes : list nat) (l : list err) : list err :=
   filter (fun e => existsb (Nat.eqb (snd (fst (fst e)))) codes) l.
 
-Definition typing_codes : list nat := [1; 2; 3; 4; 5; 6; 7; 8; 16; 17; 18; 19; 20].
+Definition typing_codes : list nat := [1; 2; 3; 4; 5; 6; 7; 8; 16; 17; 18; 19; 20; 27].
 Definition scoping_codes : list nat := [9; 10; 11; 12; 13; 14; 15; 21; 22; 23; 24].
 
 (* what the erasure check judges: the typing codes plus the two inference-mode codes *)
